@@ -11,6 +11,26 @@
 #include <mutex>
 #include <sched.h>
 #include <unistd.h>
+#include <Spectra/DavidsonSymEigsSolver.h>
+#include <Spectra/contrib/PartialSVDSolver.h>
+#include <Spectra/contrib/LOBPCGSolver.h>
+
+// The C library's process-wide generators, interposed: the executable's own definitions win over libc's for every call compiled into it (Eigen's
+// setRandom() / Random() end in std::rand()).  A library that draws from them shares hidden mutable state between all solvers of the process - with glibc's lock
+// around it, so ThreadSanitizer has nothing to report - and what a solver gets depends on what the other threads drew first.  The library never calls them on the
+// unchanged tree and neither does this harness, so one call is a finding; the stand-in generator hands out a shared sequence, as libc would.
+static std::atomic<long> g_libc_rng_calls{0};
+static std::atomic<unsigned> g_libc_rng_state{12345u};
+static int libc_rng_next() { g_libc_rng_calls++; unsigned x = g_libc_rng_state.load(); x = x * 1103515245u + 12345u; g_libc_rng_state.store(x); return (int) ((x >> 16) & 0x7fff); }
+extern "C" {
+int rand(void) noexcept { return libc_rng_next(); }
+long random(void) noexcept { return libc_rng_next(); }
+long lrand48(void) noexcept { return libc_rng_next(); }
+long mrand48(void) noexcept { return libc_rng_next(); }
+double drand48(void) noexcept { return libc_rng_next() / 32768.0; }
+void srand(unsigned) noexcept { g_libc_rng_calls++; }
+void srandom(unsigned) noexcept { g_libc_rng_calls++; }
+}
 
 using T = double;
 using namespace vz;
@@ -123,6 +143,105 @@ static std::vector<Task> build_tasks(vf::Ctx& ctx)
         tasks.push_back(shared_task<Spectra::DenseGenMatProd<T>, Spectra::GenEigsSolver>("GenEigsSolver<DenseGenMatProd>", A, opd, 3, 10, SortRule::LargestMagn, 50));
         tasks.push_back(shared_task<Spectra::SparseGenMatProd<T>, Spectra::GenEigsSolver>("GenEigsSolver<SparseGenMatProd>", S, ops, 2, 9, SortRule::LargestReal, 50));
     }
+#elif ZOO_GROUP == 2
+    // the solvers outside the Arnoldi/Lanczos zoo: Davidson (dense and sparse wrapper shared by the threads; generic matrices and matrices with an exactly decoupled
+    // coordinate at the wanted end, where a Ritz pair becomes exact and the correction vector is exactly zero), PartialSVDSolver, LOBPCGSolver
+    for (int v = 0; v < 3; v++)
+    {
+        const int n = (int) r.range(20, 50);
+        Eigen::MatrixXd M = vg::sym_matrix(r, n, 0, 1.0);
+        for (int i = 0; i < n; i++) M(i, i) += 2.0 * i;   // diagonally dominant enough for the DPR correction
+        if (v >= 1)
+        {
+            const int j = (int) r.range(0, n - 1);
+            M.row(j).setZero(); M.col(j).setZero(); M(j, j) = v == 1 ? 4.0 * n : -8.0;   // decoupled coordinate holding the largest / smallest eigenvalue
+        }
+        auto A = std::make_shared<Eigen::MatrixXd>(M);
+        auto S = std::make_shared<Eigen::SparseMatrix<double>>(A->sparseView());
+        auto opd = std::make_shared<Spectra::DenseSymMatProd<T>>(*A);
+        auto ops = std::make_shared<Spectra::SparseSymMatProd<T>>(*S);
+        const SortRule sel = v == 2 ? SortRule::SmallestAlge : SortRule::LargestAlge;
+        const int nev = (int) r.range(1, 3);
+        const char* cls = v == 0 ? "generic" : "decoupled-coordinate";
+        auto dav = [&](auto op, const char* nm) {
+            Task t;
+            t.name = std::string("DavidsonSymEigsSolver<") + nm + ">/" + cls + "/shared-const-operator";
+            t.run = [A, S, op, nev, sel](vf::Rng* rng) {
+                Spectra::DavidsonSymEigsSolver<typename std::decay<decltype(*op)>::type> es(*op, nev);
+                if (rng) perturb(rng);
+                const long ret = (long) es.compute(sel, 40, T(1e-9));
+                Snapshot sn;
+                sn.ret = ret; sn.niter = (long) es.num_iterations(); sn.nops = 0; sn.info = (int) es.info();
+                const Eigen::VectorXd ev = es.eigenvalues(); const Eigen::MatrixXd U = es.eigenvectors();
+                sn.evals.assign((const unsigned char*) ev.data(), (const unsigned char*) (ev.data() + ev.size()));
+                sn.evecs.assign((const unsigned char*) U.data(), (const unsigned char*) (U.data() + U.size()));
+                sn.evec_rows = U.rows(); sn.evec_cols = U.cols();
+                return sn;
+            };
+            tasks.push_back(t);
+        };
+        dav(opd, "DenseSymMatProd");
+        dav(ops, "SparseSymMatProd");
+    }
+    for (int v = 0; v < 3; v++)
+    {
+        const int m = (int) r.range(15, 45), n = v == 0 ? m + (int) r.range(1, 20) : (v == 1 ? std::max(6, m - (int) r.range(1, 9)) : m);
+        Eigen::MatrixXd G = vg::rand_gauss(r, m, n);
+        if (v == 2) { Eigen::MatrixXd L = vg::rand_gauss(r, m, 3); G = L * vg::rand_gauss(r, 3, n); }   // rank 3: the Lanczos run behind the SVD breaks down and restarts
+        auto A = std::make_shared<Eigen::MatrixXd>(G);
+        auto S = std::make_shared<Eigen::SparseMatrix<double>>(A->sparseView());
+        const int ncomp = 2, ncv = std::min(std::min(m, n), 7);
+        auto svd = [&](auto mat, const char* nm) {
+            Task t;
+            t.name = std::string("PartialSVDSolver<") + nm + ">/" + (v == 2 ? "rank-3" : (v == 0 ? "wide" : "tall")) + "/own-solver";
+            t.run = [mat, ncomp, ncv](vf::Rng* rng) {
+                Spectra::PartialSVDSolver<typename std::decay<decltype(*mat)>::type> sv(*mat, ncomp, ncv);
+                if (rng) perturb(rng);
+                const long ret = (long) sv.compute(200, T(1e-9));
+                Snapshot sn;
+                sn.ret = ret; sn.niter = 0; sn.nops = 0; sn.info = 0;
+                const Eigen::VectorXd sg = sv.singular_values(); const Eigen::MatrixXd U = sv.matrix_U(ncomp), V = sv.matrix_V(ncomp);
+                sn.evals.assign((const unsigned char*) sg.data(), (const unsigned char*) (sg.data() + sg.size()));
+                sn.evecs.assign((const unsigned char*) U.data(), (const unsigned char*) (U.data() + U.size()));
+                sn.evecs.insert(sn.evecs.end(), (const unsigned char*) V.data(), (const unsigned char*) (V.data() + V.size()));
+                sn.evec_rows = U.rows() + V.rows(); sn.evec_cols = U.cols();
+                return sn;
+            };
+            tasks.push_back(t);
+        };
+        svd(A, "MatrixXd");
+        svd(S, "SparseMatrix");
+    }
+    for (int v = 0; v < 2; v++)
+    {
+        const int n = (int) r.range(30, 60), k = (int) r.range(2, 5);
+        Eigen::VectorXd lam(n);
+        for (int i = 0; i < n; i++) lam[i] = 1.0 + 0.7 * i;
+        Eigen::MatrixXd Q = vg::rand_orth(r, n);
+        Eigen::MatrixXd Ad = Q * lam.asDiagonal() * Q.transpose();
+        for (int j = 0; j < n; j++) for (int i = 0; i < j; i++) Ad(i, j) = Ad(j, i);
+        Eigen::MatrixXd Bd = Eigen::MatrixXd::Identity(n, n);
+        if (v == 1) { Eigen::MatrixXd Gb = vg::rand_gauss(r, n, n); Bd = Gb * Gb.transpose() / n + Eigen::MatrixXd::Identity(n, n); }
+        auto A = std::make_shared<Eigen::SparseMatrix<double>>(Ad.sparseView());
+        auto B = std::make_shared<Eigen::SparseMatrix<double>>(Bd.sparseView());
+        auto X = std::make_shared<Eigen::SparseMatrix<double>>(vg::rand_gauss(r, n, k).sparseView());
+        Task t;
+        t.name = std::string("LOBPCGSolver/") + (v == 1 ? "pencil" : "standard") + "/own-solver";
+        t.run = [A, B, X, v](vf::Rng* rng) {
+            Spectra::LOBPCGSolver<T> so(*A, *X);
+            if (v == 1) so.setB(*B);
+            if (rng) perturb(rng);
+            so.compute(30, T(1e-8));
+            Snapshot sn;
+            sn.ret = 0; sn.niter = 0; sn.nops = 0; sn.info = (int) so.info();
+            const Eigen::VectorXd ev = so.eigenvalues(); const Eigen::MatrixXd U = so.eigenvectors();
+            sn.evals.assign((const unsigned char*) ev.data(), (const unsigned char*) (ev.data() + ev.size()));
+            sn.evecs.assign((const unsigned char*) U.data(), (const unsigned char*) (U.data() + U.size()));
+            sn.evec_rows = U.rows(); sn.evec_cols = U.cols();
+            return sn;
+        };
+        tasks.push_back(t);
+    }
 #endif
     return tasks;
 }
@@ -154,6 +273,8 @@ void vf_run_case(vf::Ctx& ctx, long idx)
         }
         ctx.digest(h);
     }
+    const long libc_rng_before = g_libc_rng_calls.load();
+    if (libc_rng_before != 0) ctx.violation("library-drew-from-the-process-wide-C-generator/sequential-run", vf::J().kv("calls", libc_rng_before).str());
     const int nthreads = (int) r.range(2, 16);
     const int ntask = (int) tasks.size();
     struct Stamp { int thread, task; std::chrono::steady_clock::time_point a, b; };
@@ -188,6 +309,8 @@ void vf_run_case(vf::Ctx& ctx, long idx)
             }
         });
     for (auto& x : th) x.join();
+    if (g_libc_rng_calls.load() != libc_rng_before) ctx.violation("library-drew-from-the-process-wide-C-generator/concurrent-run", vf::J().kv("calls", g_libc_rng_calls.load() - libc_rng_before).str());
+    ctx.count("libc_rng_monitor_checks");
     // overlap accounting: pairs of task executions in different threads whose intervals intersect; same-task overlaps separately
     long overlaps = 0, same_task_overlaps = 0, execs = 0;
     for (int a = 0; a < nthreads; a++)
